@@ -124,6 +124,6 @@ Theorem C06_model_matches_translated_source :
   (forall c start, gen_prune_front_drop c start = (c <=? start)) /\
   (forall c shape stop, gen_prune_back_drop c shape stop = (c <=? shape - stop)) /\
   gen_flags_missing_fill = DATA_LOST /\ gen_default_fill = 0 /\ gen_lost_or_mask = DATA_LOST /\
-  gen_intersect_old_is_flags = true.
+  gen_intersect_old_is_flags = true /\ gen_prune_front_keeps_last = true /\ gen_prune_back_keeps_last = true.
 Proof. exact generated_agree. Qed.
 Print Assumptions C06_model_matches_translated_source.
